@@ -230,6 +230,33 @@ fn direct_checks(ctx: &mut Ctx, sc: &Value) {
                 ctx.violate("C19.bootstrap.config_entry_rejected", class_of(&w).split(':').next().unwrap_or("").to_string(), format!("Config::bootstrap_addrs rejects `{t}`, a form the library produced for {w}: {e}"));
             }
         }
+        // the identity module's word form of (IPv4, port) packed in six bytes
+        for sa in &addrs {
+            let SocketAddr::V4(v4) = sa else { continue };
+            let mut six = v4.ip().octets().to_vec();
+            six.extend_from_slice(&v4.port().to_be_bytes());
+            match saorsa_core::identity::WordEncoder::encode(&six) {
+                Ok(w) => {
+                    ctx.probe("identity_word_form_produced");
+                    match saorsa_core::identity::WordEncoder::decode(&w) {
+                        Ok(back) if back == six => {}
+                        Ok(back) => ctx.violate("C19.identity.words_decode_to_other_address", class_of(sa), format!("identity::WordEncoder: {sa} -> `{w}` -> {back:?}")),
+                        Err(e) => ctx.violate("C19.identity.words_do_not_decode", class_of(sa), format!("identity::WordEncoder: {sa} -> `{w}` -> error {e}")),
+                    }
+                    match w.to_hash_prefix() {
+                        Ok(pfx) if pfx[..] == six[..] => {}
+                        Ok(pfx) => ctx.violate("C19.identity.words_decode_to_other_address", format!("{}:hash_prefix", class_of(sa)), format!("identity::FourWordAddress: {sa} -> `{w}` -> {pfx:?}")),
+                        Err(e) => ctx.violate("C19.identity.words_do_not_decode", format!("{}:hash_prefix", class_of(sa)), format!("identity::FourWordAddress: {sa} -> `{w}` -> error {e}")),
+                    }
+                    // the textual form read again
+                    match saorsa_core::identity::FourWordAddress::parse_str(w.as_str()) {
+                        Ok(again) => { if let Ok(back) = saorsa_core::identity::WordEncoder::decode(&again) { if back != six { ctx.violate("C19.identity.words_decode_to_other_address", format!("{}:reparsed", class_of(sa)), format!("`{w}` reparsed decodes to {back:?}")); } } }
+                        Err(e) => ctx.violate("C19.identity.words_do_not_decode", format!("{}:reparsed", class_of(sa)), format!("identity::FourWordAddress::parse_str rejects `{w}`, produced for {sa}: {e}")),
+                    }
+                }
+                Err(_) => ctx.probe("identity_no_word_form"),
+            }
+        }
         // serde of a contact entry
         let ce = saorsa_core::ContactEntry::new("peer".to_string(), addrs.clone());
         match serde_json::to_string(&ce).ok().and_then(|j| serde_json::from_str::<saorsa_core::ContactEntry>(&j).ok()) {
@@ -430,6 +457,6 @@ fn execute(sc: &Value) -> RunReport {
         net.shutdown();
     });
     drop(rt);
-    for k in ["address_strings_in_replies", "dials_observed", "peer_lookup_by_address", "bootstrap_word_form_produced", "bootstrap_config_list_read_back", "direct_boundary_address", "direct_four_word_form_produced", "direct_no_four_word_form", "direct_malformed_string"] { ctx.probes.entry(k.to_string()).or_insert(0); }
+    for k in ["address_strings_in_replies", "dials_observed", "peer_lookup_by_address", "bootstrap_word_form_produced", "bootstrap_config_list_read_back", "identity_word_form_produced", "direct_boundary_address", "direct_four_word_form_produced", "direct_no_four_word_form", "direct_malformed_string"] { ctx.probes.entry(k.to_string()).or_insert(0); }
     ctx.finish()
 }
